@@ -1,3 +1,4 @@
+\* capacity 3, four sessions, accepted offers only (rejections are covered at capacity 1 and 2): all overlaps of three served sessions and the blocked fourth get()
 CONSTANTS
   N = 3
   MaxSess = 4
@@ -5,8 +6,8 @@ CONSTANTS
   AsIs_D11 = FALSE
   Pattern = "suffix"
   AllowNonTLS = FALSE
-  Classes = {"in_wss", "out_wss"}
-  MaxNoOffer = 1
+  Classes = {"in_wss"}
+  MaxNoOffer = 0
   MaxTimeouts = 3
   EnvAtQuiet = FALSE
   GenNoFaults = FALSE
